@@ -393,7 +393,8 @@ Definition run_c10 (dt : bool) (e : env) (s : schema) (v : pyval) : string :=
   let o2 := {| strict := true; strict_allow_default := false; disable_tuple := dt |} in
   let o3 := {| strict := false; strict_allow_default := true; disable_tuple := dt |} in
   run_validate2 o1 e s v ++ "|" ++ run_validate2 o2 e s v ++ "|" ++ show_written (elab FUEL2 o1 e s v)
-  ++ "|" ++ show_written (elab FUEL2 o2 e s v) ++ "|" ++ show_written (elab FUEL2 o3 e s v).
+  ++ "|" ++ show_written (elab FUEL2 o2 e s v) ++ "|" ++ show_written (elab FUEL2 o3 e s v)
+  ++ "|" ++ (if wf_py v && pyfloats_ok v && wf_schema s && wf_env e && dflt_floats_ok s && env_floats_ok e then "hyp" else "HYPBAD").
 
 (* option records as the harness writes them (same as model/Harness.v; repeated here so that the C09/C10 checks do
    not depend on that file) *)
